@@ -174,8 +174,11 @@ func (w *worker) runCase(cfg Cfg, name string, next func(*view) (string, bool)) 
 		in.hang = ""
 	}
 	orc.finish(in, from, to)
-	if err := in.freshProbe(); err != nil {
-		orc.violate("the server keeps answering a fresh connection afterwards", "dead-after-case", err.Error())
+	in.nCases++
+	if in.nCases%16 == 0 || len(orc.viol) > 0 {
+		if err := in.freshProbe(); err != nil {
+			orc.violate("the server keeps answering a fresh connection afterwards", "dead-after-case", err.Error())
+		}
 	}
 	res.viol = orc.viol
 	return res
